@@ -55,9 +55,12 @@ def plan(tier):
             sp = specs.build(desc, ops=('new', 'value', 'tforce', 'restart'), slots=1, tasks=['t0', 't5', 't8', 't10', 't11'], delete_flags=(False,), force_tasks=None)
             d0, d1 = (2, 3) if tier == 'quick' else (3, 4)
         else:
-            sp = specs.build(desc, ops=('new', 'value', 'tforce', 'fail', 'restart'), slots=2 if tier != 'quick' else 1, faults=faults,
-                             delete_flags=(False,) if tier == 'quick' else (False, True), max_faults=1)
-            d0, d1 = (3, 4) if tier == 'quick' else (3, 5)
+            deep = name in ('chain3', 'mount2', 'parts_ext')
+            sp = specs.build(desc, ops=('new', 'value', 'tforce', 'fail', 'restart'), slots=2 if (tier != 'quick' and deep) else 1, faults=faults,
+                             delete_flags=(False,) if (tier == 'quick' or not deep) else (False, True), max_faults=1)
+            d0, d1 = (3, 4) if (tier == 'quick' or not deep) else (3, 5)
+            if tier != 'quick':
+                sp['variants'] = sp['variants'][:3] if deep else sp['variants'][:4]
         if tier == 'quick':
             sp['variants'] = sp['variants'][:3]
         out.append((desc, sp, d0, d1))
